@@ -76,7 +76,6 @@ static void setup_op_hist(MDL & op, const Case & c)
   // after deactivate() - in every case it must behave like a new object with the configuration under test
   if (c.prior) { Case p = gen_case(c.prior); p.prior = 0; try { setup_op(op, p); } catch (std::exception &) {} if (c.prior % 3 == 1) op.reset(); else if (c.prior % 3 == 2) op.deactivate(); }
   setup_op(op, c);
-  if (!op.is_active() || !op.is_valid()) throw std::runtime_error("HARNESS: op not active/valid after a successful set");
 }
 
 static void synth_event(bxdecay0::event & ev, uint64_t seed)
@@ -138,6 +137,7 @@ static Res check_case(const Case & c)
   bxdecay0::event e0; Tape tape; tape.seed = c.opseed; size_t pos_after = 0;
   std::shared_ptr<MDL> op(new MDL);
   try { setup_op_hist(*op, c); } catch (std::exception & e) { r.skipped = true; r.msg = e.what(); return r; }
+  if (!op->is_active() || !op->is_valid()) return fail("op-invalid-after-set", std::string("the configuration call succeeded but the operation reports is_active()=") + (op->is_active() ? "true" : "false") + ", is_valid()=" + (op->is_valid() ? "true" : "false") + (c.prior ? (c.prior % 3 == 1 ? " (object configured before, then reset())" : (c.prior % 3 == 2 ? " (object configured before, then deactivate())" : " (object configured before)")) : ""));
   bxdecay0::event e1;
   if (c.synthetic && c.prior_ev) { // earlier events through the same op object (their outcome is not judged here)
     for (int k = 0; k < 1 + (int)(c.prior_ev % 3); k++) { bxdecay0::event pe; synth_event(pe, c.prior_ev + 7 * k); Tape pt; pt.seed = c.prior_ev ^ (0x9e + k); TapeRandom pr(pt, 0, LIM); try { (*op)(pr, pe); } catch (std::exception &) {} }
